@@ -175,6 +175,7 @@ def jobs(tier):
         if not lab.startswith("reg:"):
             out.append({"name": f"{lab}/call/n2K2", "target": "checks.c01:job",
                         "kwargs": dict(label=lab, n=2, Kc=2, via="call", timeout_q=20.0), "timeout": 150})
+    out.append({"name": "engine-selftest", "target": "symx.selftest:job", "kwargs": dict(n_cases=300 if tier == "quick" else 1500, seed=0), "timeout": 600})
     return out
 
 
